@@ -70,7 +70,7 @@ Definition check_actor (i : nat) : option clause :=
   | RWrote d =>
     if o_shared o then
       if negb (elig r) then Some CSharedKeyQuery
-      else if negb (existsb (fun j => producer i AOk j || producer i AFailBody j) actors)
+      else if negb (existsb (fun j => producer i AOk j || producer i AFailBody j || producer i ACanBody j) actors)
       then Some CSharedKeyQuery
       else if existsb (fun j => producer i AOk j) actors && bytes_eqb d (rok r) then None
       else if existsb (fun j => producer i AFailBody j) actors && bytes_eqb d (rfail r) then None
